@@ -7,6 +7,7 @@
 import CircuitModel.Conc.RC
 import CircuitModel.Conc.Gauge
 import CircuitModel.Conc.Trans
+import CircuitModel.Conc.TransDyn
 import CircuitModel.Conc.TC
 import CircuitModel.Conc.Mgr
 import CircuitModel.Conc.Call
@@ -216,14 +217,82 @@ def conform (c : Config Shared Local) : List String → List String
 
 end TrTrans
 
-/-- header: init=(0|1) ops=<one letter per thread: O C F S>; F = failing call (opens if it gets there), S = succeeding
-    probe whose closer says ShouldClose -/
+/-! the same scenario with operator threads storing new override flags while the transitions run: the model is
+    Conc/TransDyn — an operator's two stores (ForcedClosed, then ForceOpen) are model steps of its own thread, whatever the
+    transition threads are doing; the values stored are taken from the trace at the first store (they depend on the
+    configuration the operator read), the ORDER and the effect on the flags every later load must show are the model's -/
+namespace TrTransDyn
+open Conc.TransDyn
+
+def setLocal (c : Config Trans.Shared Local) (i : Nat) (l : Local) : Config Trans.Shared Local := { c with locals := c.locals.set i l }
+
+def advanceSilent (c : Config Trans.Shared Local) (tid : Nat) : Config Trans.Shared Local :=
+  match c.locals[tid]? with
+  | some (.tr l) => if l.pc == .decide then
+      (match step tid c.shared (.tr l) with
+       | some (s', l') => { shared := s', locals := c.locals.set tid l' }
+       | none => c)
+    else c
+  | _ => c
+
+def parseBool (v : String) : Option Bool := if v == "true" then some true else if v == "false" then some false else none
+
+def conform (c : Config Trans.Shared Local) : List String → List String
+  | [] => []
+  | line :: rest =>
+    match line.splitOn " " with
+    | tidS :: toks =>
+      let body := " ".intercalate toks
+      match tidS.toNat? with
+      | none => "bad-line" :: conform c rest
+      | some tid =>
+        match toks, c.locals[tid]? with
+        | ["store", var, v], some (.op fo fc stage) =>
+          if var != TrTrans.fc && var != TrTrans.fo then "skip" :: conform c rest else
+          (match parseBool v with
+           | none => "bad-line" :: conform c rest
+           | some b =>
+             -- the operator's parameters are read off its first store; from then on it must do what the model's operator does
+             let l : Local := if stage == 0 then .op fo b 0 else if stage == 1 then .op b fc 1 else .op fo fc stage
+             let wantVar := if stage == 0 then TrTrans.fc else TrTrans.fo
+             if stage ≥ 2 then s!"MISMATCH operator thread {tid} stores {var} after its reconfiguration is complete in the model" :: conform c rest
+             else if var != wantVar then s!"MISMATCH operator thread {tid}: model expects a store to [{wantVar}] next, code stored [{var}]" :: conform c rest
+             else match step tid c.shared l with
+               | some (s', l') => "ok" :: conform { shared := s', locals := c.locals.set tid l' } rest
+               | none => "MISMATCH model step disabled" :: conform c rest)
+        | _, some (.op ..) => "skip" :: conform c rest
+        | _, some (.tr _) =>
+          let holds := c.shared.holder == some tid
+          if !holds && body != s!"lock {TrTrans.mu}" then "skip" :: conform c rest else
+          let c := advanceSilent c tid
+          (match c.locals[tid]? with
+           | some (.tr l) =>
+             (match TrTrans.expected c.shared l with
+              | none => s!"MISMATCH model expects nothing from thread {tid} but the code did: {body}" :: conform c rest
+              | some e =>
+                if e != body then s!"MISMATCH thread {tid}: model expects [{e}] code did [{body}]" :: conform c rest
+                else match step tid c.shared (.tr l) with
+                  | some (s', l') => "ok" :: conform { shared := s', locals := c.locals.set tid l' } rest
+                  | none => "MISMATCH model step disabled" :: conform c rest)
+           | _ => s!"MISMATCH no such thread {tid}" :: conform c rest)
+        | _, none => s!"MISMATCH no such thread {tid}" :: conform c rest
+    | _ => "bad-line" :: conform c rest
+
+end TrTransDyn
+
+/-- header: init=(0|1) fo0=(0|1) fc0=(0|1) ops=<one letter per thread: O C F S X Y Z V W>; F = failing call (opens if it gets
+    there), S = succeeding probe whose closer says ShouldClose, X Y Z V W = operators switching overrides -/
 def suiteTrTrans (kvs : List (String × String)) (lines : List (String × String)) : List String :=
-  let jobs : List Conc.Trans.Job := ((kvGet kvs "ops").getD "").toList.map fun ch =>
-    if ch == 'O' || ch == 'F' then .open else if ch == 'C' then .close true false else .close false true
-  -- an override flipped during the run ('X') is outside the static-flag model: such traces are not judged here
-  if ((kvGet kvs "ops").getD "").toList.any (fun ch => ch == 'X' || ch == 'Y' || ch == 'Z' || ch == 'V' || ch == 'W') || kvNat kvs "fo0" 0 == 1 || kvNat kvs "fc0" 0 == 1 then lines.map fun _ => "skip\t-" else
-  (TrTrans.conform (Conc.Trans.init false false (kvBool kvs "init" false) jobs) (lines.map (·.1))).map fun r => r ++ "\t-"
+  let ops := ((kvGet kvs "ops").getD "").toList
+  let isOp (ch : Char) : Bool := ch == 'X' || ch == 'Y' || ch == 'Z' || ch == 'V' || ch == 'W'
+  let tjob (ch : Char) : Conc.Trans.Job := if ch == 'O' || ch == 'F' then .open else if ch == 'C' then .close true false else .close false true
+  let fo0 := kvNat kvs "fo0" 0 == 1
+  let fc0 := kvNat kvs "fc0" 0 == 1
+  if ops.any isOp || fo0 || fc0 then
+    let jobs : List Conc.TransDyn.Job := ops.map fun ch => if isOp ch then .setFlags false false else .trans (tjob ch)
+    (TrTransDyn.conform (Conc.TransDyn.init fo0 fc0 (kvBool kvs "init" false) jobs) (lines.map (·.1))).map fun r => r ++ "\t-"
+  else
+  (TrTrans.conform (Conc.Trans.init false false (kvBool kvs "init" false) (ops.map tjob)) (lines.map (·.1))).map fun r => r ++ "\t-"
 
 end CM
 
